@@ -288,6 +288,44 @@ func runC07(c *Ctx) {
 		c.guarded(fn, g, 1, "truncateHeaders / truncateIndices", eff, 2, gDominate)
 		c.guarded(fn, errNil("chainTip()", find(fn, callTo(tip)), 2), 1, "truncateHeaders / truncateIndices", eff, 2, gDominate)
 	})
+	c.rule("C07.W2", "stated belief vs behaviour: addHeaders treats a missing hash-prefix sub-bucket as a hard error because ensureIndexSubBuckets creates all of them once (marker-gated, never re-run); therefore nothing in package headerfs may delete a bucket (a rollback that drops an emptied sub-bucket makes every later append of a hash with that prefix fail for good)", func() {
+		wdb := "github.com/btcsuite/btcwallet/walletdb"
+		dels := callTo(c.method(wdb, "ReadWriteBucket", "DeleteNestedBucket"), c.method(wdb, "ReadWriteTx", "DeleteTopLevelBucket"))
+		var inPkg, elsewhere []string
+		for _, f := range c.P.Funcs {
+			for _, x := range find(f, dels) {
+				if pkgOf(f) != nil && strings.HasSuffix(pkgOf(f).Path(), "/headerfs") {
+					inPkg = append(inPkg, c.nm(f)+" at "+c.at(x))
+				} else {
+					elsewhere = append(elsewhere, c.nm(f)+"@"+c.at(x))
+				}
+			}
+		}
+		sort.Strings(inPkg)
+		// the belief is still stated: addHeaders fails on a nil sub-bucket
+		add := c.fn("(*headerfs.headerIndex).addHeaders")
+		believes := false
+		for _, f := range ir.WithClosures(add) {
+			for _, x := range find(f, callTo(c.method(wdb, "ReadWriteBucket", "NestedReadWriteBucket"))) {
+				for _, br := range ir.NilBranches(x.(ssa.Value)) {
+					// on the nil edge an error is returned
+					e := br.Other()
+					ir.WalkEdge(e, nil, func(in ssa.Instruction) bool {
+						if r, ok := in.(*ssa.Return); ok && len(r.Results) == 1 && knownNonNilError(ir.RetVal(r, 0)) {
+							believes = true
+						}
+						return !believes
+					})
+				}
+			}
+		}
+		if !believes {
+			c.pass("package headerfs | sub-buckets are never deleted", "-", "addHeaders no longer assumes pre-created sub-buckets (it tolerates or re-creates a missing one): rule not applicable", elsewhere...)
+			return
+		}
+		c.verdict(len(inPkg) == 0 && len(elsewhere) >= 1, "package headerfs | sub-buckets are never deleted", "-", fmt.Sprintf("no bucket deletion in headerfs (selector control: %d deletion site(s) elsewhere in the module)", len(elsewhere)), "bucket deleted at "+join(inPkg)+fmt.Sprintf(" while addHeaders fails hard on a missing sub-bucket (control sites elsewhere: %d)", len(elsewhere)), append(inPkg, elsewhere...)...)
+	})
+
 	c.rule("C07.G2", "the filter-header store refuses a rollback past genesis before touching anything: in filterHeaderStore.RollbackLastBlock both truncations are reachable only after the header at (tip height - 1) was read successfully (at tip height 0 the subtraction wraps and the read fails) or after an explicit tip-height comparison; a rollback at genesis must not move the index or cut the file", func() {
 		fn := c.fn("(*headerfs.filterHeaderStore).RollbackLastBlock")
 		tip := c.hfs("headerIndex", "chainTip")
